@@ -64,18 +64,42 @@ Print Assumptions C01_widen_exact.
 (* ---- the chunk index (version 1 B-tree, node type 1) between the chunk writer and the chunk reader:
    Model/ChunkIndex.v, Proofs/ChunkIndex.v ---- *)
 
-(* every rank, every number of entries below 65536, every offsets/addresses/sizes that fit their fields: the
-   reader (ParseBTreeV1Node + CollectAllChunks on the bytes WriteToFile produced) returns exactly the written
-   entries, each once, in the writer's sort order, offsets divided by the chunk extents, filter mask 0 *)
-Theorem C01_index_roundtrip : forall cdims es f eof,
+(* every rank, every number of entries up to 65534 (index_pre; beyond: the two _refuted theorems below), every
+   offsets/addresses/sizes that fit their fields: the reader (ParseBTreeV1Node + CollectAllChunks on the bytes
+   WriteToFile produced) returns exactly the written entries, each once, in the writer's sort order, offsets divided
+   by the chunk extents, filter mask 0; never Panic / out of fuel *)
+Theorem C01_index_roundtrip_partial : forall cdims es f eof,
   index_pre cdims es eof = true ->
   exists f',
     write_index (length cdims) es f eof = Outcome.Ok (f', eof + Bytes.blen (serialize_leaf (length cdims) es), eof) /\
     read_index f' eof 8 cdims = COk (map (expected_entry cdims) (sort_entries es)).
 Proof. exact index_roundtrip. Qed.
-Print Assumptions C01_index_roundtrip.
+Print Assumptions C01_index_roundtrip_partial.
 
 (* ... and the sort is a permutation: every written entry appears exactly once, nothing else appears *)
 Theorem C01_index_sort_permutation : forall es, Permutation (sort_entries es) es.
 Proof. exact sort_entries_perm. Qed.
 Print Assumptions C01_index_sort_permutation.
+
+(* 65535 entries: WriteToFile succeeds, the reader panics (len(Keys) = uint16(65535 + 1) = 0) *)
+Theorem C01_index_roundtrip_refuted_65535 : forall cdims es f eof,
+  all_pos cdims = true -> Forall (fun e => entry_ok (length cdims) e = true) es ->
+  N.of_nat (length es) = 65535 ->
+  eof + Bytes.blen (serialize_leaf (length cdims) es) <= MAXINT64 ->
+  exists f' eof',
+    write_index (length cdims) es f eof = Outcome.Ok (f', eof', eof) /\
+    read_index f' eof 8 cdims = CPanic.
+Proof. exact index_65535_refuted. Qed.
+Print Assumptions C01_index_roundtrip_refuted_65535.
+
+(* 65536 entries (any multiple): WriteToFile succeeds, entries used = uint16(65536) = 0, the reader returns no
+   chunk and no error *)
+Theorem C01_index_roundtrip_refuted_65536 : forall cdims es f eof,
+  Forall (fun e => entry_ok (length cdims) e = true) es ->
+  es <> [] -> wrap16 (N.of_nat (length es)) = 0 ->
+  eof + 24 <= MAXINT64 ->
+  exists f' eof',
+    write_index (length cdims) es f eof = Outcome.Ok (f', eof', eof) /\
+    read_index f' eof 8 cdims = COk [] /\ map (expected_entry cdims) (sort_entries es) <> [].
+Proof. exact index_count_wraps_refuted. Qed.
+Print Assumptions C01_index_roundtrip_refuted_65536.
